@@ -247,7 +247,8 @@ void eq_str(const char *s, int n) { std::cout << "'" << std::string(s, n) << "'"
 void eq_end(void) { std::cout << "\n"; std::cout.flush(); }
 }
 '''
-SHOW_H = r'''#ifdef __cplusplus
+SHOW_H = r'''#include <stddef.h>
+#ifdef __cplusplus
 extern "C" {
 #endif
 void eq_begin(const char *name); void eq_int(long x); void eq_size(size_t x); void eq_bool(int x); void eq_enum(int x);
@@ -363,7 +364,7 @@ def c_driver(lib, protos):
             elif p.shape in ("str_inout", "str_out"):
                 b.append("    char %s[64]; std::memset(%s, ' ', 64); std::strcpy(%s, %s);" % (n, n, n, cstr(p.value)))
                 vals[n] = n
-                vals["L" + n] = "%d" % len(p.value.rstrip(" "))
+                vals["L" + n] = "%d" % len(p.value)
                 vals["N" + n] = "40"
                 post.append("@STR@" + n)
             elif p.shape == "arr_in":
